@@ -150,6 +150,15 @@ def _work(args):
             shutil.copy(os.path.join(root, name), os.path.join(one, "d", os.path.basename(name)))
             ways += [("parent directory", one, ["d"]), ("absolute directory from its root", one, [os.path.join(one, "d")]),
                      ("directory outside the working directory", other, [os.path.join(one, "d")])]
+            # a sibling of the working directory whose name merely extends it (proj, proj-old): outside, not inside
+            sib = one + "-old"
+            os.makedirs(os.path.join(sib, "d"))
+            shutil.copy(os.path.join(root, name), os.path.join(sib, "d", os.path.basename(name)))
+            ways += [("relative file in a sibling directory with a longer name", one,
+                      [os.path.join("..", os.path.basename(sib), "d", os.path.basename(name))]),
+                     ("absolute sibling directory with a longer name", one, [os.path.join(sib, "d")]),
+                     ("absolute sibling root with a longer name", one, [sib]),
+                     ("relative sibling directory with a longer name", one, [os.path.join("..", os.path.basename(sib))])]
         for way, cwd, argv in ways:
             try:
                 code = timed(lambda: run_check_command(cwd, argv), 60)
